@@ -191,7 +191,7 @@ func aggregateE1(rep *Reporter, prop string, cases []*e1Case, res *e1Result, bou
 	rep.Cov["distinct_outcomes"] = outcomes
 	rep.Cov["goderive_runs"] = res.GenRuns
 	if histProps[prop] {
-		rep.Cov["regeneration"] = fmt.Sprintf("every batch was also regenerated over the derived.gen.go of an older version of its sources (structs cut to their first field): %d batches reproduced the from-scratch bytes (already explored), %d left different bytes and were compiled and explored again", res.HistSame, res.HistDiffer)
+		rep.Cov["regeneration"] = fmt.Sprintf("every batch was also regenerated over the derived.gen.go of an older version of its sources (two older versions: every struct cut to its first field; every struct without its fields of basic type, which leaves the set of generated functions and their signatures as they are): %d batches reproduced the from-scratch bytes (already explored), %d left different bytes and were compiled and explored again", res.HistSame, res.HistDiffer)
 	}
 	rep.Cov["compiler_runs"] = res.Builds
 	rep.Cov["exhaustive"] = true
